@@ -3,7 +3,7 @@ import vf
 
 INV = ["AttachedIffEstablished", "RoutesOnlyWhileEstablished", "IdleClosed", "EstablishedOnlyAfterValidOpen"]
 PROPS = ["LeavingEstablished", "ErrorsAreNotified"]
-EXTRA_UPD = {"annAas4aggr", "annAas4path", "annAaggr", "annAunk", "annAcomm"}
+EXTRA_UPD = {"mpNoReserved", "annAas4aggr", "annAas4path", "annAaggr", "annAunk", "annAcomm"}
 VALID_UPD = {"annA", "annAB", "annC6", "wdA", "wdAannB", "wdAannA", "wdC6", "annD6wdC6", "annC6D6", "eor"}
 AP_UPD = {"apA1A2", "apA1B2", "apWdA1", "apWdA2annB1", "apWdA1A2", "apWdA1B2", "apA0A1", "apWdA0"}
 BAD_UPD = {"wdLenBeyond", "attrLenBeyond", "attrLenShort", "originLen2", "nextHopLen3", "medLen5", "asPathTrunc", "pfxLen33",
